@@ -209,19 +209,24 @@ func (in *Interp) intrinsic(fn *ssa.Function, name string, args []V, initCtx boo
 			return Iface{}, true
 		}
 		return in.newErr("join", wraps...), true
+	case "time.Sleep", "runtime.Gosched":
+		if in.sched != nil {
+			in.sched.point(in.sched.cur)
+		}
+		return nil, true
 	case "(*go.uber.org/atomic.Error).Load", "(*sync/atomic.Value).Load":
-		in.sched.point(in.sched.cur)
+		in.sched.visible([]any{args[0].(Ptr)}, "aload", nil)
 		v, ok := in.sched.atomVals[args[0].(Ptr)]
 		if !ok {
 			return Iface{}, true
 		}
 		return v, true
 	case "(*go.uber.org/atomic.Error).Store", "(*sync/atomic.Value).Store":
-		in.sched.point(in.sched.cur)
+		in.sched.visible([]any{args[0].(Ptr)}, "astore", nil)
 		in.sched.atomVals[args[0].(Ptr)] = args[1]
 		return nil, true
 	case "(*go.uber.org/atomic.Error).CompareAndSwap", "(*sync/atomic.Value).CompareAndSwap":
-		in.sched.point(in.sched.cur)
+		in.sched.visible([]any{args[0].(Ptr)}, "armw", nil)
 		cur, ok := in.sched.atomVals[args[0].(Ptr)]
 		if !ok {
 			cur = Iface{}
@@ -343,10 +348,14 @@ func (in *Interp) freshInt(tag string, w int, signed bool) V {
 }
 
 func (in *Interp) atomicIntrinsic(fn string, args []V) (V, bool) {
-	if in.sched != nil {
-		in.sched.point(in.sched.cur)
-	}
 	p, _ := args[0].(Ptr)
+	if in.sched != nil {
+		kind := "armw"
+		if strings.HasPrefix(fn, "Load") {
+			kind = "aload"
+		}
+		in.sched.visible([]any{p}, kind, nil)
+	}
 	switch {
 	case strings.HasPrefix(fn, "Load"):
 		return copyVal(*p), true
